@@ -46,10 +46,12 @@ impl ResolveState {
     pub(crate) fn push_mapping_key(&mut self, key: &Value) -> Result<()> {
         let kstr = match key.raw_string() {
             Ok(s) => s,
-            Err(_) => match key {
+            Err(e) => match key {
                 Value::String(s) => Ok(s.clone()),
                 Value::ValueList(_) => Err(anyhow!("Unable to render ValueList as key segment")),
-                _ => unreachable!("raw_string() implemented for other Value variants"),
+                // `raw_string()` also fails for containers which can't be represented as JSON
+                // (e.g. a mapping which itself has a sequence or mapping as a key)
+                _ => Err(e),
             }?,
         };
         self.current_keys.push(kstr);
